@@ -42,7 +42,7 @@ LEVEL_TEXT = ('Random mixture trees are run through mix_by_weight/mix_by_volume 
               'is built from Formula objects of a private table with different masses (result atoms must be that '
               "table's), a tenth leaves 1e-12..1e-6 percent to the last component, which must be present in exactly "
               'that proportion.'
-              ' Added in rounds 4-7: zero volume shares of components of unknown density, twin components at two densities, clones (copy / deepcopy / pickle) of mixtures keep the recorded amount.')
+              ' Added in rounds 4-7: zero volume shares of components of unknown density, twin components at two densities, clones (copy / deepcopy / pickle) of mixtures keep the recorded amount. Added in round 8: whole percentages handed over as numpy uint8/int8/int16/int64 scalars and python ints (exposed D40).')
 LEVEL_NOTE = ('Trusted: the tree generator/renderer pvmon/gen/mixtures.py and pvmon/gen/formulas.py (strings are unambiguous '
               'under the documented grammar), pvmon/ref/masses.py, own unit table, CPython Fraction/float.')
 ASSUMPTIONS = ['the documented grammar in doc/sphinx/guide/formula_grammar.rst plus the percent spellings of the grammar '
